@@ -64,6 +64,7 @@ type FuncSpec struct {
 	File     string
 	Line     int
 	Lets     []*Clause // let name = expr (evaluated in pre-state)
+	Cases    []*Clause // case name: cond — the function is verified once per case, cond added to requires
 	Wits     []*Clause // witness name = expr (reported from counterexamples)
 	Replay   string
 }
@@ -111,11 +112,18 @@ type UFunc struct {
 }
 
 func newSpecDB() *SpecDB {
+	db := newSpecDB0()
+	db.Ghosts["clock_ms"] = &GhostVar{Name: "clock_ms", Sort: "Int"}
+	db.Ghosts["clock_ns"] = &GhostVar{Name: "clock_ns", Sort: "Int"}
+	return db
+}
+
+func newSpecDB0() *SpecDB {
 	return &SpecDB{Funcs: map[string]*FuncSpec{}, Ghosts: map[string]*GhostVar{}, SFuncs: map[string]*SpecFunc{}, UFuncs: map[string]*UFunc{}}
 }
 
 var clauseKw = map[string]bool{"requires": true, "ensures": true, "modifies": true, "panics": true, "props": true,
-	"loop": true, "invariant": true, "pure": true, "assumed": true, "concurrent": true, "noinline": true, "unroll": true, "let": true, "decreases": true, "witness": true, "replay": true}
+	"loop": true, "invariant": true, "pure": true, "assumed": true, "concurrent": true, "noinline": true, "unroll": true, "let": true, "decreases": true, "witness": true, "replay": true, "case": true}
 var topKw = map[string]bool{"func": true, "iface": true, "callback": true, "ghost": true, "spec": true, "lemma": true}
 
 func firstWord(s string) (string, string) {
@@ -284,6 +292,17 @@ func (db *SpecDB) loadFile(path, pkgPath string) error {
 				}
 			case "replay":
 				cur.Replay = strings.TrimSpace(rest)
+			case "case":
+				rest = strings.TrimSpace(rest)
+				j := strings.Index(rest, ":")
+				if j < 0 {
+					return fail("case NAME: cond")
+				}
+				e, err := parseExpr(rest[j+1:])
+				if err != nil {
+					return fail(err.Error())
+				}
+				cur.Cases = append(cur.Cases, &Clause{Kind: "case", Label: strings.TrimSpace(rest[:j]), Text: rest[j+1:], Expr: e, Line: it.line, File: path})
 			case "let", "witness":
 				rest = strings.TrimSpace(rest)
 				j := strings.Index(rest, "=")
